@@ -247,7 +247,12 @@ def make_dipole(shape, cfg, T, source_type="electric", polarization=2, gated=Fal
     kw = {}
     if gated:
         kw["switch"] = OnOffSwitch(start_time=1e-15)
-    if rotated:
+    if rotated == "sym":
+        az, el = sym_real("azimuth"), sym_real("elevation")
+        ctx().assume(A._vnot(A.v_eq(az, 0)))
+        kw["azimuth_angle"] = az
+        kw["elevation_angle"] = el
+    elif rotated:
         kw["azimuth_angle"] = 30.0
         kw["elevation_angle"] = 20.0
     src = fdtdx.PointDipoleSource(wave_character=WaveCharacter(wavelength=1e-6), polarization=polarization, source_type=source_type, name=name or f"dipole_{source_type}{polarization}", temporal_profile=abstract_profile(), **kw)
